@@ -356,8 +356,10 @@ async fn run_limit_case(l: &[Val]) -> Val {
                         }
                         _ => bgp::Message::eor(FAM),
                     };
-                    lv.send(&[m]).await;
-                    // the session either takes the message and goes on, or ends itself (prefix limit)
+                    // The KEEPALIVE behind the message is counted by the session only after the message
+                    // has been handled and the session goes on; a session that refuses the prefix
+                    // terminates before it parses the KEEPALIVE.
+                    lv.send(&[m, bgp::Message::Keepalive]).await;
                     let mut spins = 0u32;
                     loop {
                         if lv.handle.is_finished() {
@@ -365,23 +367,11 @@ async fn run_limit_case(l: &[Val]) -> Val {
                         }
                         if lv.counter.total.load(Ordering::Relaxed) >= lv.base + lv.sent {
                             settle().await;
-                            tokio::time::sleep(Duration::from_millis(2)).await;
-                            settle().await;
                             break;
                         }
                         tokio::time::sleep(Duration::from_millis(1)).await;
                         spins += 1;
-                        assert!(spins < 5000, "verif: the session did not read the message");
-                    }
-                    // a session that refuses the prefix sends its NOTIFICATION and leaves
-                    for _ in 0..200 {
-                        if lv.handle.is_finished() {
-                            break;
-                        }
-                        tokio::time::sleep(Duration::from_millis(1)).await;
-                        if e[0].int() != 1 {
-                            break;
-                        }
+                        assert!(spins < 10000, "verif: the session neither took the message nor ended");
                     }
                     if lv.handle.is_finished() {
                         closed = true;
